@@ -261,7 +261,13 @@ def build(key, hist):
             bI = [digest(i) for i in inst]
             expl_before = explain(T)
             bC = cdig()
-        touched = apply_event(T, inst, ev, key, caller)
+        try:
+            touched = apply_event(T, inst, ev, key, caller)
+        except Exception as e:  # noqa
+            # an event that works from the initial state (every event does) fails after this history
+            if last:
+                viol.append(("C13/%s-fails-after-earlier-events:%s" % (ev.rstrip("0123456789b"), type(e).__name__), "event %s after %r raises %s" % (ev, hist[:-1], common.exc_sig(e))))
+            break
         if ev.startswith("call"):
             tag = "v2" if ev == "call2" else ("v1n:" + cdig() if ev == "call1n" else "v1")
             dnew = digest(inst[-1])
